@@ -31,6 +31,8 @@ pub enum DocOp {
     Field { name: String, value: String, kind: u8, x: f64, y: f64 },
     /// document outline: one item per title, pointing at page (index mod page count)
     Outline { titles: Vec<String> },
+    /// ICC-based colour spaces registered on the current page (each is an indirect profile stream)
+    IccSpaces { names: Vec<String> },
     /// document-level extras: page-label ranges, viewer preferences, named destinations
     Extras { labels: Vec<(u32, u8, String)>, prefs: u8, dests: Vec<String> },
     /// a polyline stroked with whatever stroke colour and width are current (no colour call)
@@ -316,6 +318,7 @@ pub fn gen_program(r: &mut Rng, o: &GenProgOpts) -> Program {
                         rgb0: [1.0, 0.0, r2(r.below(101) as f64 / 100.0)],
                         rgb1: [0.0, r2(r.below(101) as f64 / 100.0), 1.0],
                     },
+                    3 if r.chance(1, 3) => DocOp::IccSpaces { names: (0..2 + r.usize_below(4)).map(|i| format!("ICC{}x{}", rich_n, i)).collect() },
                     3 => DocOp::FormX { name: format!("Fm{}", rich_n), w: r2(10.0 + r.below(90) as f64), h: r2(10.0 + r.below(90) as f64) },
                     4 if r.chance(1, 2) => DocOp::CustomText { size: *r.pick(&[9.0, 12.0, 18.0]), x, y, text: format!("{} \u{e9}\u{f1} {}", gen_text(r, false), r.below(1000)) },
                     4 => DocOp::Note { x, y, contents: if r.chance(1, 8) { String::new() } else { gen_text(r, o.tricky_text) } },
@@ -476,6 +479,15 @@ pub fn build_document(p: &Program) -> Result<Document, String> {
                         let img = Image::from_raw_data(data, *w, *h, if *gray { ColorSpace::DeviceGray } else { ColorSpace::DeviceRGB }, 8);
                         pg.add_image(name.clone(), img);
                         pg.draw_image(name, *x, *y, *dw, *dh).map_err(|e| format!("draw_image: {}", e))?;
+                    }
+                    DocOp::IccSpaces { names } => {
+                        use oxidize_pdf::graphics::{IccColorSpace, IccProfile};
+                        for (i, n) in names.iter().enumerate() {
+                            // distinct profile bytes per name, so the streams are distinguishable
+                            let data: Vec<u8> = (0..128u32).map(|k| ((k as usize * 7 + i * 31 + n.len()) % 251) as u8).collect();
+                            let prof = IccProfile::new(n.clone(), data, IccColorSpace::Rgb);
+                            pg.add_icc_color_space(n.clone(), &prof).map_err(|e| format!("add_icc_color_space: {}", e))?;
+                        }
                     }
                     DocOp::CustomText { size, x, y, text } => {
                         pg.text().set_font(Font::Custom("Roboto".to_string()), *size).at(*x, *y).write(text).map_err(|e| format!("custom text.write: {}", e))?;
